@@ -264,7 +264,9 @@ def judge(ctx, scs):
         for c in codes:
             if c == 16:
                 ctx.known_hit("F16")
-        codes = [c for c in codes if c != 16]
+            if c == 20:
+                ctx.known_hit("F20")
+        codes = [c for c in codes if c not in (16, 20)]
         if codes:
             def fails(cand, bad0=codes[0]):
                 a2, b2, _, _, _ = syssim.run_impl(cand)
@@ -315,4 +317,4 @@ def replay(ctx, rp):
     print("watcher trace (implementation):", sexp.dumps(norm(tb))[:5000])
     v = ctx.model.call(3304, [syssim.scenario_sexp(sc), tr_sexp(ta), tr_sexp(tb)])
     print("checker verdict on the implementation traces:", v, " model==implementation:", norm(ta) == norm(mta) and norm(tb) == norm(mtb))
-    return 0 if v in ("()", "(90)", "(16)") and norm(ta) == norm(mta) and norm(tb) == norm(mtb) else 1  # 16 = known finding F16
+    return 0 if v in ("()", "(90)", "(16)", "(20)") and norm(ta) == norm(mta) and norm(tb) == norm(mtb) else 1  # 16 = known finding F16
